@@ -7,10 +7,10 @@ import json, os, re, shutil, subprocess, sys, time, hashlib, random
 
 VERIF = os.path.dirname(os.path.dirname(os.path.abspath(__file__)))
 SPEC = os.path.join(VERIF, "spec")
-HARNESS = os.path.join(VERIF, "harness")
-WORK = os.path.join(VERIF, ".work")
-REPLAY = os.path.join(VERIF, "replay")
-EVID = os.path.join(VERIF, "evidence")
+HARNESS = os.environ.get("VERIF_HARNESS", os.path.join(VERIF, "harness"))   # override: scratch copy bound to a scratch worktree (mutation runs)
+WORK = os.environ.get("VERIF_WORK", os.path.join(VERIF, ".work"))
+REPLAY = os.environ.get("VERIF_REPLAY", os.path.join(VERIF, "replay"))
+EVID = os.environ.get("VERIF_EVIDENCE", os.path.join(VERIF, "evidence"))
 TLA_JAR = "/opt/veriftools/tla/tla2tools.jar:/opt/veriftools/tla/CommunityModules-deps.jar"
 
 
